@@ -116,6 +116,23 @@ class Prog:
         it = self.iter(es)
         return self.apply(it, self.fnvalue("py:" + kind))
 
+    def api_collection(self, kind: str, es: Sequence[int]) -> int:
+        """`labrea.evaluatable_list / _tuple / _set (*members)` (aliases DatasetList ...): for the model
+        `Iter(members...).apply(kind)`; the runner calls the library function with the members (plain constants raw)"""
+        it = self._node("iter", es=list(es), h=1)
+        nid = self.apply(it, self._node("value", v=fn("py:" + kind), h=1))
+        self.nodes[-1]["api_collection"] = {"kind": kind, "es": list(es)}
+        return nid
+
+    def api_dict(self, entries: Sequence[Tuple[str, int]]) -> int:
+        """`labrea.evaluatable_dict({key: member, ...})` (alias DatasetDict): for the model
+        `Iter(Iter(Value(key), member), ...).apply(dict)` — entries in the order written"""
+        pairs = [self._node("iter", es=[self._node("value", v=k, h=1), v], h=1) for k, v in entries]
+        it = self._node("iter", es=pairs, h=1)
+        nid = self.apply(it, self._node("value", v=fn("py:dict"), h=1))
+        self.nodes[-1]["api_dict"] = [[k, v] for k, v in entries]
+        return nid
+
     def dsclass(self, name: str, members: Sequence[Tuple[str, int]], bases: Sequence[int] = (), annotated: Sequence[str] = ()) -> int:
         """a dataset class (`@datasetclass class name(*bases): member = expression ...`).  For the model a dataset class
         IS the tuple of its effective members (own ones and those inherited from dataset-class bases, a redefinition
